@@ -71,7 +71,7 @@ BOUNDS = {
                   fixed_depth="richardson_iter 0, 1, 3 (scalar), 0, 3 ((2,)), 2 ((3,)), 1 ((2,2)); base order 4 only on scalar and (2,)",
                   polynomials="1 variable, degree <= 4", history_length=3, history_alphabet="J H U A B",
                   history_states=["(1,) symbolic", "(2,) zero state"]),
-    "thorough": dict(affine_shapes=["()->()", "(2,)->(2,)", "(3,)->(2,)", "(2,2)->(3,)"], base_orders=[2, 4, 5],
+    "thorough": dict(affine_shapes=["()->()", "(2,)->(2,)", "(3,)->(2,)", "(2,2)->(3,)"], base_orders="2, 4, 5 (scalar and (2,) inputs: also 3, 6, 8)",
                      adaptive="default depth; all shapes",
                      fixed_depth="richardson_iter 0..4 and default (scalar), 0, 1, 3, 4 ((2,)), 1, 3 ((3,)), 1, 2 ((2,2))",
                      polynomials="1 and 2 variables, degree <= 4", history_length=4, history_alphabet="J H U A B C",
@@ -109,7 +109,7 @@ def instances(tier):
         n = int(np.prod(sin)) if sin else 1
         m = int(np.prod(sout)) if sout else 1
         ent = n * m
-        for bo in (2, 4, 5):
+        for bo in ((2, 4, 5) if quick or n > 2 else (2, 3, 4, 5, 6, 8)):
             if quick and bo == 4 and n > 2:
                 continue          # quick: base order 4 on the scalar and (2,) shapes only (same code path as 5, different weights)
             # adaptive, default Richardson depth
